@@ -7,7 +7,8 @@ def run(ck):
     sc.run_property(ck, sc.oracle_C10)
     ck.run_fixed({"failed_subscription_leaves_nothing": "C10:dispatch-raised",
                   "redispatched_event_is_stamped_again": "C10:stamp",
-                  "one_stream_over_equal_owners": "C10:not-subscribed"})
+                  "one_stream_over_equal_owners": "C10:not-subscribed",
+                  "dead_iterator_inside_its_block_disturbs_nobody": "C10:dispatch-raised"})
 
 
 def replay(ck, obj):
